@@ -10,8 +10,8 @@ def clean(t):
         rows.append(r)
     return '\n'.join(rows)
 
-def width(rows): return max([text_cols(r) for r in rows] + [0])
-def pad(r, w): return r + ' ' * (w - text_cols(r))
+def width(rows): return max([row_cols(r) for r in rows] + [0])
+def pad(r, w): return r + ' ' * (w - row_cols(r))
 
 def bigtext(rng):
     words = 'lorem ipsum dolor sit amet consectetur elit sed do eiusmod tempor'.split()
@@ -25,9 +25,10 @@ class C10(Prop):
     id = 'C10'
     stages = ('S1', 'S25', 'S6')
     rule = 'pairs (and triples) of legend-free, tag-free, quote-free diagrams from the grid / example / shape generators placed side by side or stacked with gaps 1..3 (plus tall shapes beside many-word paragraphs); each item renders A, B and the juxtaposition; non-trivial when both parts have at least one element'
-    level_text = ('Theorem C10_spans_of_separated_parts (M3): one pass of the merge loop commutes with restricting to a class of items that never merge with the other class; with C06 (translation) every later stage is a function of one span. '
-                  'The multiset equality of the juxtaposition is decided by correspondence and oracle.')
-    level_note = 'partial: the lift of M3 through the recursion and the final enclosure pass is covered by correspondence plus oracle'
+    level_text = ('Theorems C10_loop_commutes_with_restriction (M3 for the whole merge loop, relative to an invariant), C10_a_blank_column_separates / C10_a_blank_row_separates, C10_groups_of_a_part (the groups of cells of one part are exactly the groups of the whole that lie in it), '
+                  'C10_fragments_come_from_their_group (provenance through the whole recognition pipeline), C10_a_part_is_the_restriction_of_the_whole (for every separated drawing the accepted fragments and contact groups of a part are those of the whole coming from its cells, in the same order), C10_parts_succeed_together, '
+                  'C10_a_part_renders_the_same_anywhere (C06), C10_enclosure_stays_inside_a_part / C10_nodes_of_the_parts (the enclosure pass, given that no fragment of one part fits in the bounds of a fragment of the other). For all drawings.')
+    level_note = 'the no-fit hypothesis of the enclosure theorems and the text stage (cells of the juxtaposition = cells of the parts, moved) are covered by correspondence plus oracle'
     def make(self, gen, A, B, gap, how, C=None):
         A = A or ['']; B = B or ['']
         if how == 'side':
@@ -39,7 +40,7 @@ class C10(Prop):
         runs = {'A': Run('\n'.join(A), '', 'settings'), 'B': Run('\n'.join(B), '', 'settings'), 'AB': Run('\n'.join(rows), '', 'settings')}
         return Item(gen, runs, {'text': '\n'.join(rows), 'offset': list(off), 'how': how, 'gap': gap})
     def items(self, rng, tier):
-        out = []
+        out = [self.make('nul-column', [' \x00|', ' +-'], ['+-+', '| |'], 1, 'side'), self.make('nul-column', ['\x00\x00 o-'], ['*--', '|'], 2, 'side')]   # a literal NUL takes a column
         n = 350 if tier == 'quick' else 6000
         pool = [clean(t).split('\n') for _, t in gens.g_grid(rng, n) + gens.snippets(rng, n // 3) + gens.g_shape(rng, n // 2) + gens.g_text(rng, n // 3)]
         pool = [[r.rstrip() for r in p] for p in pool if any(r.strip() for r in p)]
